@@ -306,6 +306,10 @@ def main():
         os.makedirs(EVID, exist_ok=True)
         with open(os.path.join(EVID, "%s.json" % pid), "w") as f:
             json.dump(evidence, f, indent=1)
+        if tier == "thorough":
+            # keep the last thorough run next to the quick one (quick runs rewrite <ID>.json)
+            with open(os.path.join(EVID, "%s.thorough.json" % pid), "w") as f:
+                json.dump(evidence, f, indent=1)
     print("%s tier=%s obligations=%d discharged=%d paths=%d solver_queries=%d solver_s=%.1f wall=%.1fs exit=%d"
           % (pid, tier, len(ob_records), discharged, total_paths, total_solver, total_solver_s, wall, rc))
     sys.exit(rc)
